@@ -106,7 +106,7 @@ def explore(ctx):
         "disagreements": ndis,
         "locations_outside_the_form": outside,
         "rule": "8 fault kinds x 6 contexts (direct, nested in data construction, in an immediately called lambda, under apply, in "
-                "a lambda handed to map/for-each/fold-left, inside a derived form; plus faults reached through free identifiers of the templates of the program's own macros, also under an ellipsis for the k-th of n items) x %d seeds, the fault written in the failing "
+                "a lambda handed to map/for-each/fold-left, inside a derived form; plus faults reached through free identifiers of the templates of the program's own macros, also under an ellipsis for the k-th of n items; in four programs of ten the text of the failing form also stands earlier where it does not fail) x %d seeds, the fault written in the failing "
                 "top-level form itself, preceded by 0-5 valid forms, everything laid out with random line breaks, indentation, "
                 "tabs and comments, identifiers that begin with a sign or a dot (->n -neg +pos ...) and signed / rational / real literals on the "
                 "line of the fault, the extent of every form recorded by the renderer; whole-text evaluation through the library "
